@@ -5,6 +5,7 @@ package harness
 // on the same run (a check only counts the violations of its own property).
 
 import (
+	"context"
 	"fmt"
 	"sort"
 	"strconv"
@@ -24,8 +25,9 @@ func init() {
 		Part{WL: "opsim", Cfg: "prop=C01", Quick: 250, Thor: 6000},
 		Part{WL: "opsim", Cfg: "prop=C01,t=T1", Quick: 100, Thor: 3000})
 	plans["C02"] = []Part{
-		{WL: "opsim", Cfg: "prop=C02", Quick: 300, Thor: 8000},
-		{WL: "opsim", Cfg: "prop=C02,t=T1", Quick: 150, Thor: 4000},
+		{WL: "opsim", Cfg: "prop=C02", Quick: 250, Thor: 8000},
+		{WL: "opsim", Cfg: "prop=C02,t=T1", Quick: 120, Thor: 4000},
+		{WL: "opsim", Cfg: "prop=C02,restart=1", Quick: 120, Thor: 4000},
 	}
 	plans["C17"] = []Part{
 		{WL: "opsim", Cfg: "prop=C17", Quick: 300, Thor: 8000},
@@ -47,8 +49,9 @@ func init() {
 		{WL: "opsim", Cfg: "prop=C04", Quick: 400, Thor: 8000},
 	}
 	plans["C06"] = []Part{
-		{WL: "opsim", Cfg: "prop=C06", Quick: 300, Thor: 6000},
-		{WL: "opsim", Cfg: "prop=C06,t=T1", Quick: 100, Thor: 3000},
+		{WL: "opsim", Cfg: "prop=C06", Quick: 250, Thor: 6000},
+		{WL: "opsim", Cfg: "prop=C06,t=T1", Quick: 80, Thor: 3000},
+		{WL: "opsim", Cfg: "prop=C06,restart=1,fail=0", Quick: 80, Thor: 3000},
 	}
 }
 
@@ -559,12 +562,64 @@ func runOpsimWL(e *Env) {
 			oracleC17(r, shutdownCalledAt, shutdownReturnedAt)
 		}
 	}
+	restarted := false
+	if e.CfgIs("restart", "1") && r.quiet && o.BootErr == nil && len(s.Panics) == 0 && len(e.Out.Viol) == 0 {
+		// crash and restart: the first instance is stopped, a NEW operator instance is assembled against
+		// the same API-server state (the cluster is the only durable state shell-operator has)
+		restarted = true
+		simrt.Count("fault:crash-restart")
+		phase1 := len(o.Execs)
+		arr1 := len(o.Arrivals)
+		down, up, mut2 := false, false, false
+		simrt.GoNamed("restart", func() {
+			if wl.Choose(2) == 0 {
+				o.Op.Shutdown()
+			}
+			o.Op.Stop()
+			o.cancel()
+			simrt.Sleep(2 * time.Second)
+			down = true
+			// the cluster keeps changing while the operator is down
+			for i, n := 0, wl.Choose(4); i < n; i++ {
+				write(wl)
+			}
+			o.ctx, o.cancel = context.WithCancel(context.Background())
+			o.Booted = false
+			o.Boot(true)
+			r.bootSeq = e.Seq()
+			up = true
+			for i, n := 0, wl.Choose(5); i < n; i++ {
+				simrt.Sleep(time.Duration(1+wl.Choose(6)) * 150 * time.Millisecond)
+				write(wl)
+			}
+			simrt.Sleep(8 * time.Second)
+			mut2 = true
+		})
+		err2 := s.Run(func() bool {
+			return len(s.Panics) > 0 || (down && up && (o.BootErr != nil || (mut2 && o.Quiet())))
+		})
+		panicsToViolations(e, prop)
+		if err2 == nil && o.BootErr == nil && len(s.Panics) == 0 {
+			// the oracles see the second instance only
+			all, allArr := o.Execs, o.Arrivals
+			o.Execs, o.Arrivals = all[phase1:], allArr[arr1:]
+			r2 := &OpRun{e: e, o: o, sc: sc, obs: obs, opts: opts, monitors: map[string]string{}, faults: false, quiet: true, failPlan: r.failPlan, attempts: r.attempts}
+			r2.indexMonitors()
+			oracleC09(r2)
+			oracleC06(r2)
+			oracleC02(r2)
+			oracleC01(r2)
+			o.Execs, o.Arrivals = all, allArr
+		} else if err2 != nil {
+			e.Out.Truncated = true
+		}
+	}
 	if e.Detail {
 		var cfgs []map[string]string
 		for _, h := range sc.Hooks {
 			cfgs = append(cfgs, map[string]string{"hook": h.Path, "config": h.ConfigJSON()})
 		}
-		e.Out.Sample = map[string]any{"hooks": cfgs, "writes": o.DescribeWrites(80), "executions": o.DescribeExecs(80), "faults": opts.Faults}
+		e.Out.Sample = map[string]any{"hooks": cfgs, "writes": o.DescribeWrites(80), "executions": o.DescribeExecs(80), "faults": opts.Faults, "restarted": restarted}
 	}
 	o.Teardown()
 }
